@@ -658,6 +658,15 @@ def fam_slowop(tier, seed):
 FAMILIES["slowop"] = fam_slowop
 
 
+def fam_conform(tier, seed):
+    """random behaviours of the model (TLC -simulate) replayed step by step on the real code (tools/simgen.py)."""
+    import simgen
+    return simgen.generate(24 if tier == "quick" else 300, seed)
+
+
+FAMILIES["conform"] = fam_conform
+
+
 def generate(family, tier, seed):
     scs = FAMILIES[family](tier, seed)
     names = set()
